@@ -5,6 +5,7 @@ ModelIsotherm.loading_at / pressure_at.
 """
 
 import math
+import random
 
 import numpy
 
@@ -297,13 +298,24 @@ def _run_model(case, ctx):
             ctx.count("henry_checked", name)
             if not ok and hs > 0:
                 ctx.violation("%s/henry-limit" % name, "loading/pressure does not tend to the Henry slope at low pressure", P=P, got=got, expected=hs)
+        if explicit_p and name != "Virial" and hs > 0:
+            # the numerical inverse at very low (but positive) pressures, scalar and array
+            for arg in (1e-10, 3e-9, numpy.array([2e-10, 5e-9])):
+                st, nn = _call(m.loading, arg)
+                ctx.count("henry_checked", name + "/inverse")
+                if st == "ok":
+                    ratio = numpy.asarray(nn, dtype=float).reshape(-1) / numpy.asarray(arg, dtype=float).reshape(-1)
+                    # (the deviation from Henry's law is first order in the coverage: allowed 20 x n / capacity)
+                    cover = numpy.asarray(nn, dtype=float).reshape(-1) / GM.loading_window(name, P)[1]
+                    if not numpy.all(numpy.abs(ratio / hs - 1) < numpy.maximum(1e-6, 20 * numpy.abs(cover))):
+                        ctx.violation("%s/henry-limit/inverse" % name, "loading(p)/p does not tend to the Henry slope at very low pressure", P=P, p=arg, got=ratio, expected=hs)
     # ---- (6) scalar / array agreement, for both functions
     for label, fn, pts in ((fwd_name, forward, xs), (inv_name, inverse, ys)):
         ref_vals = []
         for x in pts:
             st, v = _call(fn, x)
             ref_vals.append(_scalar(v) if st == "ok" else None)
-        for kind in ("np64", "0d", "1d-1", "1d-2", "1d-all", "list"):
+        for kind in ("np64", "0d", "1d-1", "1d-2", "1d-all", "1d-rotated", "1d-shuffled", "list"):
             if kind == "np64":
                 arg, idx = numpy.float64(pts[0]), [0]
             elif kind == "0d":
@@ -312,6 +324,14 @@ def _run_model(case, ctx):
                 arg, idx = numpy.array([pts[1]]), [1]
             elif kind == "1d-2":
                 arg, idx = numpy.array(pts[:2]), [0, 1]
+            elif kind == "1d-rotated":
+                idx = list(range(1, len(pts))) + [0]  # (not ascending, not descending: e.g. an adsorption-desorption grid)
+                arg = numpy.array([pts[i] for i in idx])
+            elif kind == "1d-shuffled":
+                idx = list(range(len(pts)))
+                random.Random(len(pts) * 7 + 1).shuffle(idx)
+                idx = idx + idx[:1]  # with a repeated value
+                arg = numpy.array([pts[i] for i in idx])
             elif kind == "list":
                 arg, idx = numpy.asarray(list(pts[:3])), [0, 1, 2]
             else:
@@ -353,7 +373,11 @@ def _run_model(case, ctx):
                     st3, chk = _call(forward, got)
                     tgt = numpy.array([pts[i] for i in idx])
                     res_ok = st3 == "ok" and numpy.all(numpy.abs(numpy.asarray(chk, dtype=float).reshape(-1) - tgt) <= 1e-6 * numpy.max(numpy.abs(tgt)))
-                    if res_ok:
+                    permuted = len(exp) > 1 and all(close(g, e, tol, atol) for g, e in zip(sorted(got), sorted(exp)))
+                    if permuted:
+                        # the right values in the wrong places: not a convergence matter
+                        key = "%s.%s/array-values-in-wrong-order/%s" % (name, label, kind)
+                    elif res_ok:
                         key = "numeric-inverse[hybr-from-zeros]/array/other-solution-of-the-equation"
                     elif big_ok:
                         key = "numeric-inverse[hybr-from-zeros]/array/small-elements-unconverged-with-success"
